@@ -77,6 +77,31 @@ pub fn all_ops(s: &str, chars: &[char], st: &mut Stats) {
     st.traces += 1;
 }
 
+/// the operations that reach every table lookup: enforce and compare of each profile, allows
+pub fn core_ops(s: &str, chars: &[char], st: &mut Stats) {
+    watch::enter("ops", chars);
+    for p in Prof::ALL {
+        let r = enforce(p, s);
+        st.evaluations += 1;
+        if matches!(r, Out::Panic(_)) {
+            bad("enforce", s, p.name(), &r, st);
+        }
+        let r = compare(p, s, "a");
+        st.evaluations += 1;
+        if matches!(r, OutB::Panic(_)) {
+            bad("compare(s,a)", s, p.name(), &r, st);
+        }
+    }
+    for c in [Class::Identifier, Class::Freeform] {
+        let r = allows(c, s);
+        st.evaluations += 1;
+        if matches!(r, OutU::Panic(_)) {
+            bad("allows", s, &format!("{:?}", c), &r, st);
+        }
+    }
+    st.traces += 1;
+}
+
 fn ctx_positions(len: usize) -> Vec<usize> {
     let mut p: Vec<usize> = (0..=len + 1).collect();
     p.extend([usize::MAX - 1, usize::MAX, usize::MAX / 2, 1usize << 32]);
@@ -143,7 +168,7 @@ pub fn run(_env: &Env, run: &Run) -> (Stats, Coverage) {
         for a in alias_chars(c) {
             let t = [c, a];
             let s: String = t.iter().collect();
-            all_ops(&s, &t, st);
+            core_ops(&s, &t, st);
         }
         // derived property through the char entry point
         for cl in [Class::Identifier, Class::Freeform] {
